@@ -72,7 +72,10 @@ def declare(reg):
                    'textlen': 'int', '_config': 'ConfigR',
                    # ghost: the node last handed to set_parseinfo() (C12: the node that carries a rule's parse information is the
                    # node the rule returns, i.e. the one the semantic action produced)
-                   'ghost_stamped': 'Val'},
+                   'ghost_stamped': 'Val',
+                   # ghost: identity of the failure last handed to set_furthest_exception() (C04: every failing rule invocation
+                   # records its failure for error reporting, whether the failure was computed or replayed from the memo table)
+                   'ghost_recorded': 'int'},
         'wf': ['len(self.states.state_stack) >= 1', 'spec_frame_wf(self.states.state_stack[-1])',
                'self.states.state_stack[-1].cursor.len == self.textlen'],
         'isa': ['Ctx', 'ParseContext', 'ParserEngine', 'ParserCore'],
